@@ -492,11 +492,14 @@ func (fc *FnCtx) havocAll(st *State) {
 		for k := range fc.keySort {
 			if strings.HasPrefix(k, "ghost:"+name+".") || strings.HasPrefix(k, "ghost:"+name+"@") {
 				keep[k] = fc.heapGet(st, k, fc.keySort[k])
-				fc.assumptions["unknown code leaves the ghost state '"+name+"' as it found it (balanced locking)"] = true
+				fc.assumptions["unknown code leaves the ghost state '"+name+"' as it found it (declared stable: only the library's own code, which is under contract, changes it)"] = true
 			}
 		}
 	}
 	// fields written only at construction (load.go findInitOnlyFields) cannot be changed by unknown code
+	if srt, ok := fc.keySort["ghost:chancap"]; ok {
+		keep["ghost:chancap"] = fc.heapGet(st, "ghost:chancap", srt) // a channel's capacity never changes
+	}
 	for k := range fc.keySort {
 		if m := initOnlyKeyRe.FindString(k); m != "" && fc.e.initOnly[m] {
 			keep[k] = fc.heapGet(st, k, fc.keySort[k])
